@@ -296,6 +296,24 @@ func c14Rules(p *core.Prog, r *core.Run) {
 		r.Check("C14.N9", "targets:all-resolved", len(extra) == 0, p.InstrPos(t.Instr), "inside the loop over the records, the target's addresses are looked up for every service-mode record that names a target; further conditions: %v", extra)
 	}
 	r.Check("C14.N9", "targets:resolve-site", nRT == 1, p.Pos(rs.Pos()), "one target-resolution site in Resolve (found %d)", nRT)
+	// the addresses are filed under the target name as the record spells it:
+	// that spelling is what Targets looks them up with
+	nKey := 0
+	for _, b := range rt.Blocks {
+		for _, in := range b.Instrs {
+			mu, ok := in.(*ssa.MapUpdate)
+			if !ok {
+				continue
+			}
+			if mx := p.X(mu.Map); !(mx.Op == "field" && mx.Name == "Additional") {
+				continue
+			}
+			nKey++
+			k := p.X(mu.Key)
+			r.Check("C14.N9", fmt.Sprintf("targets:filed-under-name#%d", nKey), k.Op == "param", p.InstrPos(mu), "the target's addresses are stored under the name as given (%s)", short(k))
+		}
+	}
+	r.Check("C14.N9", "targets:filed", nKey >= 1, p.Pos(rt.Pos()), "stores into ResolveResult.Additional examined: %d", nKey)
 
 	// a target whose addresses cannot be found stays without addresses: its
 	// failure never fails the lookup of the name (the other records, and the
@@ -436,6 +454,19 @@ func c14ValidName(p *core.Prog, r *core.Run, vn *ssa.Function) {
 			if f.L.Args[0].Any(func(e *core.Expr) bool { return e.Op == "call" && e.Name == "strings.Split" && e.Args[1].Name == `"."` }) {
 				if ret, isRet := b.Succs[0].Instrs[len(b.Succs[0].Instrs)-1].(*ssa.Return); isRet && p.X(ret.Results[0]).Name == "false" {
 					okL = true
+					// ... every label: no way round the loop goes past the test
+					for h, body := range core.Loops(vn) {
+						if !body[b] {
+							continue
+						}
+						for lb := range body {
+							for _, s := range lb.Succs {
+								if s == h && lb != h && !(b == lb || b.Dominates(lb)) {
+									okL = false
+								}
+							}
+						}
+					}
 				}
 			}
 		}
